@@ -360,6 +360,11 @@ class CallMixin:
         st.locals[tgt] = new
         return [(st, NONE)]
 
+    def bi_set(self, f, pos, kws, st, ln):
+        if not pos and not kws:
+            return [(st, SSet(SList.of([]), lambda v: v.t))]
+        raise ToolLimit('set() of %r' % (pos,))
+
     def bi_bool(self, f, pos, kws, st, ln):
         if not pos:
             return [(st, SBool(False))]
